@@ -51,11 +51,24 @@ class Ctx:
             self._pool = ctxm.Pool(NPROC)
         return self._pool
 
-    def pmap(self, fn, tasks, chunksize=1):
+    def pmap(self, fn, tasks, chunksize=1, safe=True):
+        """Parallel map.  With safe=True an exception escaping from a task (the code under test put an object into a
+        condition the harness' observation functions cannot read, or raised something unclassified) is turned into a
+        violation `task-raises` instead of aborting the whole check; the task's result is then dropped."""
         tasks = list(tasks)
+        call = _Safe(fn) if safe else fn
         if NPROC <= 1 or len(tasks) <= 1:
-            return [fn(t) for t in tasks]
-        return self.pool().map(fn, tasks, chunksize=chunksize)
+            res = [call(t) for t in tasks]
+        else:
+            res = self.pool().map(call, tasks, chunksize=chunksize)
+        out = []
+        for r in res:
+            if isinstance(r, _TaskCrash):
+                self.add([{"subcheck": "task-raises", "key": {"exc": r.exc, "where": r.where},
+                           "case": {"task": r.task}, "detail": {"error": r.error, "traceback": r.tb}}])
+            else:
+                out.append(r)
+        return out
 
     def close(self):
         if self._pool is not None:
@@ -66,6 +79,29 @@ class Ctx:
     @property
     def thorough(self):
         return self.tier == "thorough"
+
+
+class _TaskCrash:
+    def __init__(self, task, e):
+        import traceback
+
+        self.task = repr(task)[:600]
+        self.exc = type(e).__name__
+        self.error = repr(e)[:300]
+        tb = traceback.extract_tb(e.__traceback__)
+        self.where = f"{tb[-1].name}" if tb else "?"
+        self.tb = [f"{f.filename.rsplit('/', 2)[-1]}:{f.lineno} {f.name}" for f in tb[-6:]]
+
+
+class _Safe:
+    def __init__(self, fn):
+        self.fn = fn
+
+    def __call__(self, t):
+        try:
+            return self.fn(t)
+        except Exception as e:      # not BaseException: KeyboardInterrupt / SystemExit still stop the run
+            return _TaskCrash(t, e)
 
 
 def rotate(seq, seed):
@@ -93,6 +129,10 @@ def main(argv=None):
         with open(a.replay) as f:
             rec = json.load(f)
         case = findings.unjson(rec["case"])
+        if case is None or (isinstance(case, dict) and set(case) <= {"task"}):
+            # recorded from a task that raised / an aborted run: the reproducer is the check itself
+            print("replay: this record has no single-case reproducer; re-running the check")
+            return main([pid, "--tier", a.tier, "--seed", str(a.seed)])
         vs1 = mod.run_case(case)
         vs2 = mod.run_case(case)
         k1 = sorted(findings.violation_id(pid, v) for v in vs1)
@@ -116,13 +156,27 @@ def main(argv=None):
         return 0
 
     ctx = Ctx(pid, a.tier, a.seed)
+    crashed = False
     try:
         cov = mod.run(ctx)
-    except Exception:
+    except (MemoryError, KeyboardInterrupt):
         traceback.print_exc()
         print(f"HARNESS-ERROR: check {pid} crashed")
         ctx.close()
         return 2
+    except Exception as e:
+        # The exploration itself was aborted by an exception.  On the unchanged tree this never happens (every check
+        # runs to completion); when it does, the code under test raised something no driver classifies or left an
+        # object unreadable for the observation functions -- reported as a violation with the traceback as detail,
+        # together with whatever had been found before.
+        traceback.print_exc()
+        tb = traceback.extract_tb(e.__traceback__)
+        ctx.add([{"subcheck": "check-run-raises", "key": {"exc": type(e).__name__, "where": tb[-1].name if tb else "?"},
+                  "case": None,
+                  "detail": {"error": repr(e)[:300],
+                             "traceback": [f"{f.filename.rsplit('/', 2)[-1]}:{f.lineno} {f.name}" for f in tb[-8:]]}}])
+        cov = {"exhaustive": False, "aborted_by_exception": type(e).__name__}
+        crashed = True
     ctx.close()
     wall = time.time() - ctx.t0
     # Before a violation is reported its case is re-executed twice on fresh objects; the record says
@@ -149,8 +203,13 @@ def main(argv=None):
     cov.setdefault("known_finding_cases", n_known)
     if ctx.notes:
         cov.setdefault("notes", ctx.notes)
-    evidence.write(pid, a.tier, a.seed, mod.LEVEL, cov, wall, n_new,
-                   getattr(mod, "ASSUMPTIONS", []))
+    try:
+        evidence.write(pid, a.tier, a.seed, mod.LEVEL, cov, wall, n_new,
+                       getattr(mod, "ASSUMPTIONS", []))
+    except Exception:
+        if not crashed:
+            raise
+        print("NOTE: the run was aborted by an exception; no evidence file written for it")
     summary = {k: v for k, v in cov.items() if isinstance(v, (int, float, bool, str)) and k != "rule"}
     print(f"{pid} tier={a.tier} seed={a.seed} wall={wall:.1f}s violations={n_new} known={n_known} "
           + " ".join(f"{k}={v}" for k, v in sorted(summary.items())))
